@@ -11,8 +11,8 @@ class LBCheck(BaseCheck):
   KINDS = ('heap', 'aperture')
   QUICK_CASES = 1200
   THOROUGH_CASES = 20000
-  QUICK_WALL = 45
-  THOROUGH_WALL = 420
+  QUICK_WALL = 180
+  THOROUGH_WALL = 1800
   MIN_DISTINCT = 10
   ANCHORS = ('scales.loadbalancer.heap:HeapBalancerSink._AsyncProcessRequestImpl',
              'scales.loadbalancer.heap:HeapBalancerSink._RemoveSink',
